@@ -120,7 +120,9 @@ def gen_expr(g, depth, k):
         if depth >= 2 and g.chance(0.4):
             # lists may hold models too ((a >> b) >> [c >> d, e]): an operand that is a Model then takes part in
             # several (left, right) pairs of one link
-            return ["list"] + [gen_expr(g, 1, k) if g.chance(0.5) else ["node", g.randint(0, k - 1)] for _ in range(n)]
+            # (a list inside a list is not an operand the operators define: elements are nodes or models)
+            els = [gen_expr(g, 1, k) if g.chance(0.5) else ["node", g.randint(0, k - 1)] for _ in range(n)]
+            return ["list"] + [e_ if e_[0] != "list" else ["node", g.randint(0, k - 1)] for e_ in els]
         return ["list"] + [["node", i] for i in g.sample(range(k), min(n, k))]
     if r < 0.22:
         ns = g.sample(range(k), g.randint(1, min(4, k)))
